@@ -168,4 +168,91 @@ theorem C10_buck4_end (C r : ℝ) : ev [0, 1, C] buck_call r = -(C / r ^ 6) := b
 example : Solves [0, 1, 1, 1, 0, 0, 0, 0] expA expB [0, 0, 0, 0, 0, 0] := by
   simp [Solves, rowDot, expA, expB, evalR, envOf]
 
+/-! ### the systems determine the coefficients: at most one solution
+
+`numpy.linalg.solve` is an external call (its result enters `C10_exp_C2` / `C10_buck4_C2` as the hypothesis `Solves`).  These theorems say that the
+hypothesis pins the spline down: for distinct detach / attach points the generated 6×6 system has AT MOST ONE solution, so whatever `solve` returns, if it
+solves the system at all it is THE exponential-quintic of the end-point data - the splined function is determined by the model, not by the solver. -/
+
+/-- a quintic whose value, slope and curvature vanish at two distinct points is the zero polynomial (explicit adjugate certificates:
+    each `2 (s - e)^5 dᵢ` is a polynomial combination of the six conditions) -/
+theorem hermite5_zero (s e d0 d1 d2 d3 d4 d5 : ℝ) (hne : s ≠ e)
+    (h1 : d0 + s * d1 + s ^ 2 * d2 + s ^ 3 * d3 + s ^ 4 * d4 + s ^ 5 * d5 = 0)
+    (h2 : d0 + e * d1 + e ^ 2 * d2 + e ^ 3 * d3 + e ^ 4 * d4 + e ^ 5 * d5 = 0)
+    (h3 : d1 + 2 * s * d2 + 3 * s ^ 2 * d3 + 4 * s ^ 3 * d4 + 5 * s ^ 4 * d5 = 0)
+    (h4 : d1 + 2 * e * d2 + 3 * e ^ 2 * d3 + 4 * e ^ 3 * d4 + 5 * e ^ 4 * d5 = 0)
+    (h5 : 2 * d2 + 6 * s * d3 + 12 * s ^ 2 * d4 + 20 * s ^ 3 * d5 = 0)
+    (h6 : 2 * d2 + 6 * e * d3 + 12 * e ^ 2 * d4 + 20 * e ^ 3 * d5 = 0) :
+    d0 = 0 ∧ d1 = 0 ∧ d2 = 0 ∧ d3 = 0 ∧ d4 = 0 ∧ d5 = 0 := by
+  have hk : (2 : ℝ) * (s - e) ^ 5 ≠ 0 := mul_ne_zero two_ne_zero (pow_ne_zero _ (sub_ne_zero.mpr hne))
+  have k0 : 2 * (s - e) ^ 5 * d0 = 0 := by
+    linear_combination (-2*e^3*(e^2 - 5*e*s + 10*s^2)) * h1 + (2*s^3*(10*e^2 - 5*e*s + s^2)) * h2 + (2*e^3*s*(-e + s)*(-e + 4*s)) * h3 + (-2*e*s^3*(-4*e + s)*(-e + s)) * h4 + (-e^3*s^2*(-e + s)^2) * h5 + (e^2*s^3*(-e + s)^2) * h6
+  have k1 : 2 * (s - e) ^ 5 * d1 = 0 := by
+    linear_combination (60*e^2*s^2) * h1 + (-60*e^2*s^2) * h2 + (-2*e^2*(-e + s)*(-e + 6*s)*(e + 2*s)) * h3 + (2*s^2*(-6*e + s)*(-e + s)*(2*e + s)) * h4 + (e^2*s*(-e + s)^2*(2*e + 3*s)) * h5 + (-e*s^2*(-e + s)^2*(3*e + 2*s)) * h6
+  have k2 : 2 * (s - e) ^ 5 * d2 = 0 := by
+    linear_combination (-60*e*s*(e + s)) * h1 + (60*e*s*(e + s)) * h2 + (12*e*s*(-e + s)*(3*e + 2*s)) * h3 + (12*e*s*(-e + s)*(2*e + 3*s)) * h4 + (-e*(-e + s)^2*(e^2 + 6*e*s + 3*s^2)) * h5 + (s*(-e + s)^2*(3*e^2 + 6*e*s + s^2)) * h6
+  have k3 : 2 * (s - e) ^ 5 * d3 = 0 := by
+    linear_combination (20*(e^2 + 4*e*s + s^2)) * h1 + (-20*(e^2 + 4*e*s + s^2)) * h2 + (-4*(-e + s)*(3*e^2 + 10*e*s + 2*s^2)) * h3 + (-4*(-e + s)*(2*e^2 + 10*e*s + 3*s^2)) * h4 + ((-e + s)^2*(3*e^2 + 6*e*s + s^2)) * h5 + (-(-e + s)^2*(e^2 + 6*e*s + 3*s^2)) * h6
+  have k4 : 2 * (s - e) ^ 5 * d4 = 0 := by
+    linear_combination (-30*(e + s)) * h1 + (30*(e + s)) * h2 + (2*(-e + s)*(8*e + 7*s)) * h3 + (2*(-e + s)*(7*e + 8*s)) * h4 + (-(-e + s)^2*(3*e + 2*s)) * h5 + ((-e + s)^2*(2*e + 3*s)) * h6
+  have k5 : 2 * (s - e) ^ 5 * d5 = 0 := by
+    linear_combination (12) * h1 + (-12) * h2 + (-6*(-e + s)) * h3 + (-6*(-e + s)) * h4 + ((-e + s)^2) * h5 + (-(-e + s)^2) * h6
+  exact ⟨(mul_eq_zero.mp k0).resolve_left hk, (mul_eq_zero.mp k1).resolve_left hk, (mul_eq_zero.mp k2).resolve_left hk,
+    (mul_eq_zero.mp k3).resolve_left hk, (mul_eq_zero.mp k4).resolve_left hk, (mul_eq_zero.mp k5).resolve_left hk⟩
+
+/-- a cubic whose value, slope and curvature vanish at `r` and whose slope also vanishes at `m ≠ r` is the zero polynomial -/
+theorem cubic3_zero (r m b0 b1 b2 b3 : ℝ) (hne : m ≠ r)
+    (h1 : b0 + r * b1 + r ^ 2 * b2 + r ^ 3 * b3 = 0)
+    (h2 : b1 + 2 * r * b2 + 3 * r ^ 2 * b3 = 0)
+    (h3 : 2 * b2 + 6 * r * b3 = 0)
+    (h4 : b1 + 2 * m * b2 + 3 * m ^ 2 * b3 = 0) :
+    b0 = 0 ∧ b1 = 0 ∧ b2 = 0 ∧ b3 = 0 := by
+  have hk : (3 : ℝ) * (m - r) ^ 2 ≠ 0 := mul_ne_zero three_ne_zero (pow_ne_zero _ (sub_ne_zero.mpr hne))
+  have k3 : 3 * (m - r) ^ 2 * b3 = 0 := by linear_combination h4 - h2 - (m - r) * h3
+  have e3 : b3 = 0 := (mul_eq_zero.mp k3).resolve_left hk
+  subst e3
+  have e2 : b2 = 0 := by linear_combination (1 / 2 : ℝ) * h3
+  subst e2
+  have e1 : b1 = 0 := by linear_combination h2
+  subst e1
+  have e0 : b0 = 0 := by linear_combination h1
+  exact ⟨e0, rfl, rfl, rfl⟩
+
+/-- **uniqueness (exponential spline)**: two coefficient vectors that both solve the generated system for the same end-point data are equal -/
+theorem C10_exp_unique (sx ex sy ey d1s d1e d2s d2e : ℝ) (hne : sx ≠ ex)
+    (c0 c1 c2 c3 c4 c5 c0' c1' c2' c3' c4' c5' : ℝ)
+    (h : Solves [sx, ex, sy, ey, d1s, d1e, d2s, d2e] expA expB [c0, c1, c2, c3, c4, c5])
+    (h' : Solves [sx, ex, sy, ey, d1s, d1e, d2s, d2e] expA expB [c0', c1', c2', c3', c4', c5']) :
+    [c0, c1, c2, c3, c4, c5] = [c0', c1', c2', c3', c4', c5'] := by
+  simp only [Solves, expA, expB, List.forall₂_cons, rowDot, List.zipWith_cons_cons, List.zipWith_nil_right,
+    List.sum_cons, List.sum_nil, evalR, envOf, List.getD_cons_succ, List.getD_cons_zero,
+    Nat.cast_ofNat, Nat.cast_one, Nat.cast_zero, div_one] at h h'
+  obtain ⟨r1, r2, r3, r4, r5, r6, -⟩ := h
+  obtain ⟨r1', r2', r3', r4', r5', r6', -⟩ := h'
+  obtain ⟨e0, e1, e2, e3, e4, e5⟩ := hermite5_zero sx ex (c0 - c0') (c1 - c1') (c2 - c2') (c3 - c3') (c4 - c4') (c5 - c5') hne
+    (by linear_combination r1 - r1') (by linear_combination r2 - r2') (by linear_combination r3 - r3')
+    (by linear_combination r4 - r4') (by linear_combination r5 - r5') (by linear_combination r6 - r6')
+  rw [sub_eq_zero.mp e0, sub_eq_zero.mp e1, sub_eq_zero.mp e2, sub_eq_zero.mp e3, sub_eq_zero.mp e4, sub_eq_zero.mp e5]
+
+/-- **uniqueness (four-range Buckingham spline)**: for `r_dp < r_min < r_ap` the generated 10×10 system has at most one solution -/
+theorem C10_buck4_unique (rdp rmin rap v0 d0 dd0 v1 d1 dd1 : ℝ) (h1 : rdp < rmin) (h2 : rmin < rap)
+    (a0 a1 a2 a3 a4 a5 b0 b1 b2 b3 a0' a1' a2' a3' a4' a5' b0' b1' b2' b3' : ℝ)
+    (h : Solves [rdp, rmin, rap, v0, d0, dd0, v1, d1, dd1] buck4M buck4V [a0, a1, a2, a3, a4, a5, b0, b1, b2, b3])
+    (h' : Solves [rdp, rmin, rap, v0, d0, dd0, v1, d1, dd1] buck4M buck4V [a0', a1', a2', a3', a4', a5', b0', b1', b2', b3']) :
+    [a0, a1, a2, a3, a4, a5, b0, b1, b2, b3] = [a0', a1', a2', a3', a4', a5', b0', b1', b2', b3'] := by
+  simp only [Solves, buck4M, buck4V, List.forall₂_cons, rowDot, List.zipWith_cons_cons, List.zipWith_nil_right,
+    List.sum_cons, List.sum_nil, evalR, envOf, List.getD_cons_succ, List.getD_cons_zero,
+    Nat.cast_ofNat, Nat.cast_one, Nat.cast_zero, div_one] at h h'
+  obtain ⟨r1, r2, r3, r4, r5, r6, r7, r8, r9, r10, -⟩ := h
+  obtain ⟨r1', r2', r3', r4', r5', r6', r7', r8', r9', r10', -⟩ := h'
+  obtain ⟨f0, f1, f2, f3⟩ := cubic3_zero rap rmin (b0 - b0') (b1 - b1') (b2 - b2') (b3 - b3') (ne_of_lt h2)
+    (by linear_combination r8 - r8') (by linear_combination r9 - r9') (by linear_combination r10 - r10')
+    (by linear_combination r4 - r4' - (r6 - r6'))
+  rw [sub_eq_zero] at f0 f1 f2 f3
+  subst f0 f1 f2 f3
+  obtain ⟨e0, e1, e2, e3, e4, e5⟩ := hermite5_zero rdp rmin (a0 - a0') (a1 - a1') (a2 - a2') (a3 - a3') (a4 - a4') (a5 - a5') (ne_of_lt h1)
+    (by linear_combination r1 - r1') (by linear_combination r5 - r5') (by linear_combination r2 - r2')
+    (by linear_combination r4 - r4') (by linear_combination r3 - r3') (by linear_combination r7 - r7')
+  rw [sub_eq_zero.mp e0, sub_eq_zero.mp e1, sub_eq_zero.mp e2, sub_eq_zero.mp e3, sub_eq_zero.mp e4, sub_eq_zero.mp e5]
+
 end Atsim.C10
